@@ -781,7 +781,7 @@ fn extract_tuple_ids(type_id: usize, program: &Program) -> Vec<usize> {
 
 /// Collect the identifiers a pattern binds, with multiplicity (every alternative of an
 /// alternation binds the same set, so the first one stands for all).
-fn collect_bound_identifiers(pattern: &ast::Match, out: &mut Vec<String>) {
+pub fn collect_bound_identifiers(pattern: &ast::Match, out: &mut Vec<String>) {
     match pattern {
         ast::Match::Identifier(name, _) | ast::Match::As(_, name, _) => out.push(name.clone()),
         ast::Match::Tuple(tuple) => {
